@@ -347,7 +347,9 @@ func (s *StateMachine) GetParamsGov() (ptr *GovernanceParams, err lib.ErrorI) {
 	// create a new object ref for the governance params to ensure a non-nil result
 	ptr = new(GovernanceParams)
 	// get the governance parameters from state
-	err = s.getParams(ParamSpaceGov, ptr, ErrEmptyGovParams)
+	// NOTE: the governance space has a single field, so a legitimate value (daoRewardPercentage = 0) encodes to zero bytes,
+	// which the store cannot tell apart from 'absent'; an empty encoding therefore reads as the all-default parameters
+	err = s.getParams(ParamSpaceGov, ptr, func() lib.ErrorI { return nil })
 	// exit
 	return
 }
